@@ -20,7 +20,7 @@ sys.path.insert(0, HERE)
 import z3  # noqa: E402
 from vc import build, ir, symex, smt, replay  # noqa: E402
 
-CONTRACT_MODULES = ['calendar']
+CONTRACT_MODULES = ['calendar', 'period']
 
 
 class Run:
@@ -170,11 +170,16 @@ def triage(R):
                 except Exception as e:
                     rep['post_eval_error'] = repr(e)
         rep['replayed_on_real_code'] = replayed
-        if key in kmap:
-            R.known_hits.append((kmap[key], rep))
+        if key.split('#case-')[0] in kmap:
+            if not any(k is kmap[key.split('#case-')[0]] for k, _ in R.known_hits):
+                R.known_hits.append((kmap[key.split('#case-')[0]], rep))
             continue
+        base = o.name.split('#case-')[0]
+        if any(v['key'] == base for v in R.violations):
+            continue
+        key = base
         os.makedirs(rdir, exist_ok=True)
-        path = os.path.join(rdir, _safe(o.name) + '.json')
+        path = os.path.join(rdir, _safe(base) + '.json')
         rep['solver_output'] = 'sat'
         rep['smt2_head'] = getattr(o, 'smt2', '')[:4000]
         with open(path, 'w') as f:
